@@ -100,16 +100,16 @@ Proof. unfold entry_eqb. rewrite Nat.eqb_sym, kw_eqb_sym. reflexivity. Qed.
 (** the model's dedupe (literal equality, calls appended to the kept list) is
     the specification's run-once filter (effective equality) whenever the two
     equalities coincide on the calls of the session *)
-Lemma dedupe_run_once (E : flat -> entry) : forall l kept,
-  (forall a b, In a (kept ++ l) -> In b (kept ++ l) -> call_eqb a b = entry_eqb (E a) (E b)) ->
-  map E (dedupe_from kept l) = map E kept ++ run_once (rev (map E kept)) (map E l).
+Lemma dedupe_run_once (eqk : nat -> nat) (E : flat -> entry) : forall l kept,
+  (forall a b, In a (kept ++ l) -> In b (kept ++ l) -> call_eqb eqk a b = entry_eqb (E a) (E b)) ->
+  map E (dedupe_from eqk kept l) = map E kept ++ run_once (rev (map E kept)) (map E l).
 Proof.
   induction l as [|c l IH]; intros kept H.
   - simpl. rewrite app_nil_r. reflexivity.
   - cbn [dedupe_from map run_once].
-    assert (existsb (fun d => call_eqb d c) kept = existsb (entry_eqb (E c)) (rev (map E kept))) as Hex.
+    assert (existsb (fun d => call_eqb eqk d c) kept = existsb (entry_eqb (E c)) (rev (map E kept))) as Hex.
     { rewrite existsb_rev. clear IH.
-      assert (forall d, In d kept -> call_eqb d c = entry_eqb (E c) (E d)) as Hd.
+      assert (forall d, In d kept -> call_eqb eqk d c = entry_eqb (E c) (E d)) as Hd.
       { intros d Hin. rewrite entry_eqb_sym. apply H; apply in_or_app; [left; exact Hin | right; left; reflexivity]. }
       induction kept as [|d kept IHk]; [reflexivity|].
       cbn [existsb map]. rewrite (Hd d (or_introl eq_refl)). f_equal.
@@ -118,7 +118,7 @@ Proof.
           try (right; apply in_or_app; left; assumption); right; apply in_or_app; right; assumption.
       - intros d' Hin. apply Hd. right; exact Hin. }
     rewrite <- Hex.
-    destruct (existsb (fun d => call_eqb d c) kept).
+    destruct (existsb (fun d => call_eqb eqk d c) kept).
     + apply IH. intros a b Ha Hb.
       apply H; [destruct (in_app_or _ _ _ Ha) | destruct (in_app_or _ _ _ Hb)]; apply in_or_app;
         try (left; assumption); right; right; assumption.
@@ -338,6 +338,23 @@ Proof.
   apply kw_eqb_refl. rewrite (bind_keys _ _ _ _ E). apply W.
 Qed.
 
+Lemma kw_eqb_s_refl d : NoDup (map fst d) -> kw_eqb_s d d = true.
+Proof.
+  intros ND. unfold kw_eqb_s. rewrite Nat.eqb_refl. cbn [andb].
+  assert (kw_sub_s d d = true) as H.
+  { unfold kw_sub_s. apply forallb_forall. intros [k v] HIn. cbn [fst snd].
+    rewrite (kw_get_in_nodup k v d ND HIn). apply value_eqb_eq; reflexivity. }
+  rewrite H. reflexivity.
+Qed.
+
+Lemma eff_refl_s sig f e : wf_sig sig -> eff sig f = Some e -> entry_eqb_s e e = true.
+Proof.
+  intros W H. unfold eff in H.
+  destruct (bind (sig (f_task f)) (f_args f) (f_kw f)) as [b|] eqn:E; [|discriminate].
+  inversion H; subst. unfold entry_eqb_s. cbn [fst snd]. rewrite Nat.eqb_refl. cbn [andb].
+  apply kw_eqb_s_refl. rewrite (bind_keys _ _ _ _ E). apply W.
+Qed.
+
 Lemma list_eqb_refl_on {A} (eqb : A -> A -> bool) l :
   (forall x, In x l -> eqb x x = true) -> list_eqb eqb l l = true.
 Proof.
@@ -364,10 +381,10 @@ Proof.
   - destruct H as [->|H]; [left; reflexivity | right; eapply IH; eauto].
 Qed.
 
-Lemma dedupe_from_incl : forall l kept x, In x (dedupe_from kept l) -> In x kept \/ In x l.
+Lemma dedupe_from_incl eqk : forall l kept x, In x (dedupe_from eqk kept l) -> In x kept \/ In x l.
 Proof.
   induction l as [|c l IH]; intros kept x H; [left; exact H|].
-  cbn [dedupe_from] in H. destruct (existsb (fun d => call_eqb d c) kept).
+  cbn [dedupe_from] in H. destruct (existsb (fun d => call_eqb eqk d c) kept).
   - destruct (IH _ _ H); [left | right; right]; assumption.
   - destruct (IH _ _ H) as [H1|H1].
     + apply in_app_or in H1. destruct H1 as [H1|[<-|[]]]; [left; exact H1 | right; left; reflexivity].
@@ -375,9 +392,9 @@ Proof.
 Qed.
 
 (** calls of the session agree on literal vs effective equality *)
-Definition agree (sig : nat -> params) (order : list flat) : bool :=
+Definition agree (sig : nat -> params) (eqk : nat -> nat) (order : list flat) : bool :=
   forallb (fun a => forallb (fun b =>
-     Bool.eqb (call_eqb a b)
+     Bool.eqb (call_eqb eqk a b)
               (match eff sig a, eff sig b with
                | Some x, Some y => entry_eqb x y
                | _, _ => false end)) order) order.
@@ -407,26 +424,26 @@ Qed.
 
 (** Flagship (partial): the model meets the executable specification whenever
     dedupe is off, or literal and effective equality agree on the session. *)
-Lemma model_meets_spec sig reqs dflt dd :
+Lemma model_meets_spec sig eqk reqs dflt dd :
   wf_sig sig ->
-  (dd = true -> agree sig (dfs (requested reqs dflt)) = true) ->
-  spec_ok sig reqs dflt dd (execute sig reqs dflt dd) = true.
+  (dd = true -> agree sig eqk (dfs (requested reqs dflt)) = true) ->
+  spec_ok sig reqs dflt dd (execute sig eqk reqs dflt dd) = true.
 Proof.
   intros W G. unfold spec_ok, execute.
   rewrite normalize_requested, expand_is_dfs.
   set (l := dfs (requested reqs dflt)) in *.
   destruct (all_some (map (eff sig) l)) as [order|] eqn:Eo; [|reflexivity].
-  assert (forall e, In e order -> entry_eqb e e = true) as Hrefl.
+  assert (forall e, In e order -> entry_eqb_s e e = true) as Hrefl.
   { intros e HIn. pose proof (all_some_map _ _ _ Eo) as F2. clear -F2 HIn W.
     induction F2 as [|a b l o Hab _ IH]; [contradiction|].
-    destruct HIn as [<-|HIn]; [eapply eff_refl; eauto | apply IH; exact HIn]. }
+    destruct HIn as [<-|HIn]; [eapply eff_refl_s; eauto | apply IH; exact HIn]. }
   destruct dd.
   - specialize (G eq_refl).
-    assert (forall x, In x (dedupe l) -> In x l) as Hsub.
-    { intros x Hx. unfold dedupe in Hx. destruct (dedupe_from_incl _ _ _ Hx) as [[]|H]; exact H. }
-    rewrite run_calls_all_some, (all_some_sub sig l (dedupe l) order Eo Hsub).
-    assert (map (E_of sig) (dedupe l) = run_once [] order) as Hd.
-    { unfold dedupe. rewrite (dedupe_run_once (E_of sig) l []).
+    assert (forall x, In x (dedupe eqk l) -> In x l) as Hsub.
+    { intros x Hx. unfold dedupe in Hx. destruct (dedupe_from_incl _ _ _ _ Hx) as [[]|H]; exact H. }
+    rewrite run_calls_all_some, (all_some_sub sig l (dedupe eqk l) order Eo Hsub).
+    assert (map (E_of sig) (dedupe eqk l) = run_once [] order) as Hd.
+    { unfold dedupe. rewrite (dedupe_run_once eqk (E_of sig) l []).
       - cbn [map rev app]. rewrite (all_some_E sig l order Eo). reflexivity.
       - cbn [app]. intros a b Ha Hb. unfold agree in G. rewrite forallb_forall in G.
         specialize (G a Ha). rewrite forallb_forall in G. specialize (G b Hb).
@@ -450,16 +467,16 @@ Inductive subseq {A} : list A -> list A -> Prop :=
 | sub_skip x l1 l2 : subseq l1 l2 -> subseq l1 (x :: l2)
 | sub_keep x l1 l2 : subseq l1 l2 -> subseq (x :: l1) (x :: l2).
 
-Lemma dedupe_from_shape : forall l kept,
+Lemma dedupe_from_shape eqk : forall l kept,
   exists news,
-    dedupe_from kept l = kept ++ news /\ subseq news l /\
-    (forall n1 x n2, news = n1 ++ x :: n2 -> existsb (fun d => call_eqb d x) (kept ++ n1) = false) /\
-    (forall x, In x l -> In x news \/ existsb (fun d => call_eqb d x) (kept ++ news) = true).
+    dedupe_from eqk kept l = kept ++ news /\ subseq news l /\
+    (forall n1 x n2, news = n1 ++ x :: n2 -> existsb (fun d => call_eqb eqk d x) (kept ++ n1) = false) /\
+    (forall x, In x l -> In x news \/ existsb (fun d => call_eqb eqk d x) (kept ++ news) = true).
 Proof.
   induction l as [|c l IH]; intros kept.
   - exists []. simpl. rewrite app_nil_r. repeat split; [constructor | | intros x []].
     intros n1 x n2 H. destruct n1; discriminate.
-  - cbn [dedupe_from]. destruct (existsb (fun d => call_eqb d c) kept) eqn:Ex.
+  - cbn [dedupe_from]. destruct (existsb (fun d => call_eqb eqk d c) kept) eqn:Ex.
     + destruct (IH kept) as [news [H1 [H2 [H3 H4]]]]. exists news.
       split; [exact H1|]. split; [constructor; exact H2|]. split; [exact H3|].
       intros x [<-|Hx]; [right; rewrite existsb_app, Ex; reflexivity | apply H4; exact Hx].
@@ -477,12 +494,12 @@ Qed.
 (** the result is a subsequence of the input (relative order kept), contains
     no two equal calls, and every input call is kept or equals a kept one;
     in particular a call with no equal predecessor is kept *)
-Lemma dedupe_spec l :
-  subseq (dedupe l) l /\
-  (forall n1 x n2, dedupe l = n1 ++ x :: n2 -> existsb (fun d => call_eqb d x) n1 = false) /\
-  (forall x, In x l -> In x (dedupe l) \/ existsb (fun d => call_eqb d x) (dedupe l) = true).
+Lemma dedupe_spec eqk l :
+  subseq (dedupe eqk l) l /\
+  (forall n1 x n2, dedupe eqk l = n1 ++ x :: n2 -> existsb (fun d => call_eqb eqk d x) n1 = false) /\
+  (forall x, In x l -> In x (dedupe eqk l) \/ existsb (fun d => call_eqb eqk d x) (dedupe eqk l) = true).
 Proof.
-  unfold dedupe. destruct (dedupe_from_shape l []) as [news [H1 [H2 [H3 H4]]]].
+  unfold dedupe. destruct (dedupe_from_shape eqk l []) as [news [H1 [H2 [H3 H4]]]].
   rewrite H1. cbn [app] in *. auto.
 Qed.
 
@@ -494,8 +511,8 @@ Proof.
   intros H; inversion H; subst. apply all_some_map; exact E.
 Qed.
 
-Lemma no_dedupe_identity sig reqs dflt log res :
-  execute sig reqs dflt false = Ok (log, res) ->
+Lemma no_dedupe_identity sig eqk reqs dflt log res :
+  execute sig eqk reqs dflt false = Ok (log, res) ->
   Forall2 (fun f e => eff sig f = Some e) (dfs (requested reqs dflt)) log.
 Proof.
   unfold execute. rewrite normalize_requested, expand_is_dfs.
@@ -513,9 +530,9 @@ Definition w_build := Call 0 [] [] [w_setup] [].
 Lemma refuted_effective :
   exists sig reqs,
     wf_sig sig /\
-    execute sig reqs None true =
+    execute sig (fun t => t) reqs None true =
       Ok ([(1, [("clean", VBool false)]); (1, [("clean", VBool false)]); (0, [])], [(1, 1); (0, 2)]) /\
-    spec_ok sig reqs None true (execute sig reqs None true) = false.
+    spec_ok sig reqs None true (execute sig (fun t => t) reqs None true) = false.
 Proof.
   exists w_sig, [(w_setup, [("clean", VBool false)]); (w_build, [])].
   split; [|split; vm_compute; reflexivity].
@@ -525,8 +542,8 @@ Qed.
 (** call(setup, False) and call(setup, clean=False) as two pre-tasks *)
 Lemma refuted_effective_positional :
   exists sig reqs,
-    spec_ok sig reqs None true (execute sig reqs None true) = false /\
-    agree sig (dfs (requested reqs None)) = false.
+    spec_ok sig reqs None true (execute sig (fun t => t) reqs None true) = false /\
+    agree sig (fun t => t) (dfs (requested reqs None)) = false.
 Proof.
   exists w_sig,
     [(Call 0 [] [] [Call 1 [VBool false] [] [] []; Call 1 [] [("clean", VBool false)] [] []] [], [])].
@@ -542,8 +559,8 @@ Definition ex_sig (t : nat) : params :=
   match t with 2 => [("n", VInt 0)] | 4 => [("xx", VInt 0); ("yy", VNone)] | _ => [] end.
 
 Lemma example_guard :
-  wf_sig ex_sig /\ agree ex_sig (dfs (requested [(ex_top, [])] None)) = true /\
-  execute ex_sig [(ex_top, [])] None true =
+  wf_sig ex_sig /\ agree ex_sig (fun t => t) (dfs (requested [(ex_top, [])] None)) = true /\
+  execute ex_sig (fun t => t) [(ex_top, [])] None true =
     Ok ([(3, []); (1, []); (2, [("n", VInt 5)]); (4, [("xx", VInt 1); ("yy", VNone)]); (0, [])],
         [(3, 0); (1, 1); (2, 2); (4, 3); (0, 4)]) /\
   List.length (dfs (requested [(ex_top, [])] None)) = 7.
@@ -551,4 +568,18 @@ Proof.
   split; [|repeat split; vm_compute; reflexivity].
   intros t. do 5 (destruct t as [|t]; [simpl; repeat constructor; simpl; intuition discriminate|]).
   simpl; constructor.
+Qed.
+
+(** Tasks made by one factory function (same name, same code object, different
+    closure) are equal for Task.__eq__: `execute("staging", "prod")` runs only
+    the first although the two invocations are not identical (F-C04c) *)
+Lemma refuted_factory :
+  exists sig eqk reqs,
+    wf_sig sig /\ eqk 1 = eqk 2 /\
+    execute sig eqk reqs None true = Ok ([(1, [])], [(1, 0)]) /\
+    spec_ok sig reqs None true (execute sig eqk reqs None true) = false /\
+    spec_ok sig reqs None true (execute sig (fun t => t) reqs None true) = true.
+Proof.
+  exists (fun _ => []), (fun _ => 0), [(Call 1 [] [] [] [], []); (Call 2 [] [] [] [], [])].
+  split; [intros t; constructor|]. repeat split; vm_compute; reflexivity.
 Qed.
